@@ -1167,6 +1167,8 @@ def run(chk, cases=None):
     chk.extra["outside_quantifier_model_mismatches"] = len(j.outside)
     if j.outside:
         chk.extra["outside_quantifier_example"] = {k: j.outside[0][2][k] for k in ("case", "step", "op", "impl")}
+    from props import c12_tie   # source tie: the translated _datasets.py functions, interpreted in Coq, on this run's cases
+    c12_tie.source_tie(chk, cases, res)
 
 
 def digest_of(obj):
